@@ -99,6 +99,7 @@ type c10Step struct {
 	Gap   time.Duration
 	Len   int
 	Flood int // -1 keep, 0 set false, 1 set true (applied before the line, when the sender is idle)
+	Ping  bool // the line is the PONG the client owes to a server PING (sent when the sender is idle)
 }
 
 var c10Gaps = []time.Duration{0, 0, 0, time.Millisecond, 500 * time.Millisecond, 2 * time.Second, 5 * time.Second, 9990 * time.Millisecond, 10 * time.Second, 15 * time.Second, 60 * time.Second, 600 * time.Second}
@@ -143,7 +144,7 @@ func TestC10(t *testing.T) {
 			if r.Intn(25) == 0 {
 				fl = r.Intn(2)
 			}
-			steps = append(steps, c10Step{g, l, fl})
+			steps = append(steps, c10Step{g, l, fl, r.Intn(8) == 0})
 		}
 		c10Run(t, e, idx, steps)
 		if len(e.R.Violations) > 20 {
@@ -205,6 +206,20 @@ func c10Run(t *testing.T, e *env, idx int, steps []c10Step) {
 				unit := []string{"é", "日", "😀"}[st.Len%9/3]
 				line = strings.Repeat(unit, st.Len/len(unit))
 				line += strings.Repeat("z", st.Len-len(line))
+			}
+			if st.Ping {
+				// a server PING: its PONG is an outgoing line like any other. It is requested when the sender is idle
+				// (so that it is ordered before the lines that follow), which leaves the penalty where the burst put it
+				for waited := 0; mc.NumLines() < count && waited < 100000; waited++ {
+					time.Sleep(time.Second)
+				}
+				synctest.Wait()
+				tok := "t" + strings.Repeat("k", max(st.Len-7, 0))
+				iss = append(iss, issued{time.Now(), len("PONG :" + tok), flood})
+				mc.SendLine("PING :" + tok)
+				synctest.Wait()
+				count++
+				continue
 			}
 			iss = append(iss, issued{time.Now(), len(line), flood})
 			conn.Raw(line)
